@@ -112,6 +112,11 @@ Theorem C07_session_round1_sites : forall q c t,
 Proof. exact session_round1_sites. Qed.
 Print Assumptions C07_session_round1_sites.
 
+Theorem C07_otext_sigma_site : forall q c t,
+  first_msg q (draws POtExtReceiver c 1) t = [TBytes (slice 0 (N.to_nat 16) t)].
+Proof. exact otext_sigma_site. Qed.
+Print Assumptions C07_otext_sigma_site.
+
 (* Non-vacuity: a concrete three-party instance in which relabelling one tape leaves the
    others' messages unchanged and changes its own. *)
 Example C07_nonvacuous :
